@@ -9,6 +9,7 @@ R18.6  iter_sse tests and accumulates each line of aiter_lines() unmodified (no 
 R18.7  what a decoder has buffered lives in the call (or in a per-instance attribute): no class-level / module-level / default-argument container
 R18.5  a value whose truthiness guards a yield is an instance of a class without __bool__/__len__ (an empty event is still delivered)
 R18.4  iter_ndjson: one yield per non-empty line, nothing carried between lines
+R18.8  comment lines never decide a dispatch: a block of comments only (keep-alive) is not an event
 """
 from __future__ import annotations
 
@@ -338,13 +339,52 @@ def _sse_typestate(fn: Function, rep: Report) -> None:
                           f"event dispatch inside the loop is not guarded by the blank-line test (guards: {[norm(g.ast) for g, _ in gs]})", fn.loc(n.ast))
     # append must be exactly the complement branch of the blank-line test (no line is dropped, none is both)
     app_nodes = [n for n in cfg.nodes if n.kind == "stmt" and n.ast is not None and has_append(n.ast)]
+    def comment_sense(g, pol) -> Optional[bool]:
+        """True: this guard means 'the current line is a comment' (`line.startswith(":")`, `line[0] == ":"`, `line[:1] == ":"`); False: 'it is not'."""
+        t, p = g.ast, pol
+        while isinstance(t, ast.UnaryOp) and isinstance(t.op, ast.Not):
+            t, p = t.operand, (None if p is None else not p)
+        if p is None:
+            return None
+        if isinstance(t, ast.Call) and isinstance(t.func, ast.Attribute) and t.func.attr == "startswith" and isinstance(t.func.value, ast.Name) \
+                and t.func.value.id in lvs and len(t.args) == 1 and const_str(t.args[0]) == ":":
+            return p
+        if isinstance(t, ast.Compare) and len(t.ops) == 1 and isinstance(t.ops[0], (ast.Eq, ast.NotEq)) and isinstance(t.left, ast.Subscript) \
+                and isinstance(t.left.value, ast.Name) and t.left.value.id in lvs and const_str(t.comparators[0]) == ":":
+            return p if isinstance(t.ops[0], ast.Eq) else not p
+        return None
+
+    comment_free = bool(app_nodes)
     for n in app_nodes:
         gs = [(g, pol) for g, pol in _guards(cfg, n.id, dom) if g.kind == "test" and _inside(g.stmt, loop) and pol is not None]
+        not_comment = [(g, pol) for g, pol in gs if comment_sense(g, pol) is False]
+        gs = [(g, pol) for g, pol in gs if comment_sense(g, pol) is not False]  # 'the line is not a comment' drops nothing an event is made of
+        if not not_comment:
+            comment_free = False
         if len(gs) == 1 and blank_sense(*gs[0]) is False:
-            rep.ok("R18.2", sub0 + " every non-blank line collected", "append guarded only by 'the line is not blank'", fn.loc(n.ast))
+            rep.ok("R18.2", sub0 + " every non-blank line collected", "append guarded only by 'the line is not blank'" + (" and 'not a comment'" if not_comment else ""), fn.loc(n.ast))
         else:
             rep.violation("R18.2", sub0 + " every non-blank line collected", f"{fn.fq}|append-guards|{len(gs)}",
                           f"a non-blank line is collected only under extra conditions {[norm(g.ast) for g, _ in gs]}: lines can be dropped", fn.loc(n.ast))
+    # R18.8 comments are ignored: a block made of comment lines only (a keep-alive) is not an event.  The dispatch decision is the
+    # non-emptiness of the accumulator, so either comment lines never enter it, or the parser answers None for a block without fields.
+    parser_fns = []
+    for nn in parse_nodes:
+        for c in calls_in(nn.ast):
+            d = dotted(c.func) or ""
+            if d in mod.functions and any(isinstance(x, ast.Name) and x.id == acc for x in c.args):
+                parser_fns.append(mod.functions[d])
+    parser_none = bool(parser_fns) and all(any(isinstance(r, ast.Return) and (r.value is None or (isinstance(r.value, ast.Constant) and r.value.value is None))
+                                               for r in own_nodes(pf.node)) for pf in parser_fns)
+    sub8 = f"{mod.relpath}:iter_sse comment-only blocks"
+    if comment_free:
+        rep.ok("R18.8", sub8, "comment lines never enter the accumulator whose non-emptiness decides the dispatch", fn.loc())
+    elif parser_none:
+        rep.ok("R18.8", sub8, "the block parser returns None on some path and the dispatch tests its result", fn.loc())
+    else:
+        rep.violation("R18.8", sub8, f"{fn.fq}|comment-lines-trigger-dispatch",
+                      "comment lines are collected like field lines, the dispatch is decided by `if <collected lines>` and the block parser always returns an event object: "
+                      "a block of comment lines only (`: keep-alive`) is delivered as an event with empty data instead of being ignored", fn.loc())
     # (d) every parsed event is yielded (bypass only through `if event:`)
     for n in parse_nodes + [x for x in cfg.nodes if x.kind == "stmt" and x.ast is not None and parses(x.ast) and x.copy]:
         if not isinstance(n.ast, ast.Assign) or not isinstance(n.ast.targets[0], ast.Name):
